@@ -9,5 +9,5 @@ mkdir -p .bin evidence replay
 targets="driver"
 for f in lean/Verif/Properties/C*.lean; do n=$(basename "$f" .lean); targets="$targets Verif.Properties.$n"; done
 for f in lean/Verif/Generated/FactsOK/C*.lean; do n=$(basename "$f" .lean); targets="$targets Verif.Generated.FactsOK.$n"; done
-(cd lean && lake build $targets)
+(cd lean && lake build $targets Verif.Generated.FactsOK.Keys)
 echo setup-ok
